@@ -192,3 +192,34 @@ Definition shadow_freeb (st : list entry) : bool :=
 Definition wkeys_okb (ws : list (string * src)) : bool :=
   (nodupb pair_eqb (map wkey ws) && forallb (fun w => String.eqb (s_peer (snd w)) "") ws)%bool.
 
+
+(* ---------------------------------------------------------------- histories mixing whole-entry writes and upserts *)
+
+Inductive cwrite :=
+| WEnt (e : entry)                 (* ConfigEntry.Apply of a whole service-intentions entry *)
+| WUps (dn : string) (v : src).    (* Intention.Apply upsert of one source *)
+
+Definition capply (st : list entry) (w : cwrite) : list entry :=
+  match w with WEnt e => snd (ensure st e) | WUps dn v => snd (upsert st dn v) end.
+Definition capply_all (st : list entry) (ws : list cwrite) : list entry := fold_left capply ws st.
+
+Definition cw_ents (ws : list cwrite) : list entry :=
+  flat_map (fun w => match w with WEnt e => [e] | WUps _ _ => [] end) ws.
+Definition cw_upss (ws : list cwrite) : list (string * src) :=
+  flat_map (fun w => match w with WEnt _ => [] | WUps dn v => [(dn, v)] end) ws.
+
+(* the writes of a history are pairwise independent: distinct entry names, distinct (destination, source)
+   upsert keys, local upsert sources, and no upsert goes into an entry that the history also writes whole *)
+Definition cw_independent (ws : list cwrite) : Prop :=
+  NoDup (map lname (cw_ents ws)) /\
+  NoDup (map wkey (cw_upss ws)) /\
+  (forall w, In w (cw_upss ws) -> s_peer (snd w) = "") /\
+  (forall e w, In e (cw_ents ws) -> In w (cw_upss ws) -> lower (fst w) <> lname e).
+
+(* the entries upserts go into hold no two sources with the same service name *)
+Definition shadow_free_on (ws : list cwrite) (st : list entry) : Prop :=
+  forall e w, In e st -> In w (cw_upss ws) -> lname e = lower (fst w) -> NoDup (map s_name (e_srcs e)).
+
+(* i comes before j in the list *)
+Definition precedes {A} (l : list A) (i j : A) : Prop :=
+  exists l1 l2 l3, l = l1 ++ i :: l2 ++ j :: l3.
